@@ -1,5 +1,5 @@
 """C23 — interactions follow the register, cutoff, custom matrix and SLM schedule (provenance clauses)."""
-from ..rules import pure, adapter, step
+from ..rules import pure, adapter, dark, step
 
 META = {
     "title": "Interactions follow the register, cutoff, custom matrix and SLM schedule",
@@ -14,7 +14,8 @@ META = {
                    "otherwise, slm_end_time = sequence._slm_mask_time[1] or 0.0; emu-mps queries it at a convex "
                    "combination of current_time/target_time, emu-sv at a convex combination of T[k], T[k+1]; "
                    "the qubit-order optimiser sees the end-of-sequence matrix. "
-                   "The SLM-masked matrix is cloned from the matrix after the cutoff was applied.",
+                   "The SLM-masked matrix is cloned from the matrix after the cutoff was applied. "
+                   "DARK-sv: the emu-sv dark-atom wrapper returns, on every call, a fresh clone of the backend's own callable evaluated at the call's time with the bad atoms' rows and columns zeroed (no value cached across query times).",
     "not_decided": "symmetry and zero diagonal of Pulser's matrix; the case where the SLM end falls strictly "
                    "inside a step (no query time is exact then)",
     "trusted_base": ["CPython ast", "sa.interp", "sa.algebra"],
@@ -29,3 +30,4 @@ def check(ctx):
     step.step_sv(ctx)
     ctx.floor("INTERACT", 8)
     pure.check(ctx, [], ["emu_mps.optimatrix.optimiser", "emu_mps.optimatrix.permutations"])
+    dark.sv_completeness(ctx)
